@@ -10,7 +10,7 @@ package primitives
 // postconditions give the callers what their own termination and structure arguments need.
 
 //@ func ReadLine
-//@   props C15
+//@   props C13 C14 C15
 //@   ensures strlen(result0) <= strlen(s)
 //@   ensures strlen(result1) < strlen(s) || (strlen(s) == 0 && result0 == "" && result1 == "")
 //@ end
@@ -21,7 +21,7 @@ package primitives
 //@ end
 
 //@ func Attributes.Unmarshal
-//@   props C15
+//@   props C13 C14 C15
 //@   modifies *a
 //@   loop 1 invariant strlen(v) >= 0
 //@   loop 1 decreases strlen(v)
@@ -35,6 +35,6 @@ package primitives
 //@ end
 
 //@ func Duration.Unmarshal
-//@   props C15
+//@   props C14 C15
 //@   modifies *d
 //@ end
